@@ -1,4 +1,4 @@
 Require Import ExtrOcamlBasic.
 From Eupsv Require Import Base.Base Model.Shell.
 Extraction "model.ml" keep_types emit emit_failed render protect new_after sh_lex sh_run sh_source
-  claim_env valid_names nodup_keys gone_ok quote_val needs_quote.
+  claim_env valid_names nodup_keys gone_ok quote_val needs_quote in_claim forget forced_ok.
